@@ -441,6 +441,10 @@ def check(F, rep, tier):
     for p_ in sorted(reach):
         g_ = F.fn(p_)
         if g_ is None or "::tests" in p_ or "test_utils" in p_ or "::_::" in p_: continue
+        if any((mir.callee(t) or "").rsplit("::", 1)[-1] in ("with_capacity", "reserve", "reserve_exact", "repeat", "from_elem", "resize", "try_reserve") for bi, t in g_.calls()):
+            # helpers that fetch the number (`length_arg(args, 10)?`) are spliced in, so that its origin in the input stays visible
+            try: g_ = mir.inlined(F, g_, depth=2)
+            except Exception: pass
         for bi, t in g_.calls():
             c = mir.callee(t) or ""
             last = c.rsplit("::", 1)[-1]
